@@ -12,7 +12,7 @@ Definition kind_of (a : api) : api_kind :=
   | AEncodeSW _ _ => KEncodeSW | ASamples _ _ => KSamples | AEncrypt _ => KEncrypt | ADecrypt _ => KDecrypt
   | ADecryptInit _ _ => KDecryptInit | AInitProtect _ _ => KInitProtect | ADecryptWith _ _ => KDecryptWith
   | AEncryptWith _ _ => KEncryptWith | AToByteStream _ => KToByteStream | AToNaluSample _ => KToNaluSample
-  | ASetBoxDecoder => KSetBoxDecoder | ARemoveBoxDecoder => KRemoveBoxDecoder
+  | ASetBoxDecoder => KSetBoxDecoder | ARemoveBoxDecoder => KRemoveBoxDecoder | ATouch _ => KTouch
   end.
 
 (* which Global cell of the table stands for a package-level variable *)
@@ -28,7 +28,7 @@ Definition kind_globals_r (k : api_kind) : list nat :=
   | KDecode => [0; 1; 2; 3]
   | KDecodeSR => [1; 2; 3]
   | KInfo | KEncode | KEncodeSW | KSamples | KEncrypt | KDecrypt | KDecryptInit | KInitProtect
-  | KDecryptWith | KEncryptWith => [3]
+  | KDecryptWith | KEncryptWith | KTouch => [3]
   | KToByteStream | KToNaluSample => []
   | KSetBoxDecoder | KRemoveBoxDecoder => [0; 1]
   end%nat.
